@@ -375,7 +375,7 @@ class TemporalDictionaryEnsemble(BaseClassifier):
         correct = 0
         required_correct = int(lowest_acc * train_size)
 
-        if self.n_jobs > 1:
+        if self.n_jobs is not None and self.n_jobs > 1:
             c = Parallel(n_jobs=self.n_jobs)(
                 delayed(tde._train_predict)(
                     i,
